@@ -57,10 +57,18 @@ func execRdec(wd *world, op string, toks []string) string {
 		}
 		limit = n
 	}
-	if childWanted() && (lim == "u" || limit > int64(len(in))) {
+	if childWanted() && (lim == "u" || limit > int64(len(in))) && (suspectSize(in) || (r.HasMap && bigCount(in))) {
+		// (inputs without a long-form header of 4+ size bytes cannot announce more than 16 MiB: they run in process)
 		// an unlimited (or over-limited) stream sizes buffers from peer-chosen headers: a fatal out-of-memory error
 		// must not end the harness, so these decodes run in the worker process (same binary, same real code)
-		return workerExec(op)
+		a := workerExec(op)
+		if strings.HasSuffix(a, "res=slow") {
+			// only streams without an effective limit run here: a decode that is still busy after 2 s is busy obtaining
+			// (zeroing) the buffer a peer-chosen header announced; whether that shows as a failed mmap, a large allocation
+			// or slowness is timing, so it is reported as the allocation it is
+			a = strings.TrimSuffix(a, "res=slow") + "res=alloc"
+		}
+		return a
 	}
 	ch := make(chan string, 1)
 	go func() {
